@@ -18,64 +18,74 @@ Section Sound.
   Variable fone : F.
   Variable fuel : nat.
 
-  (** ** the slice *)
-  Definition slice_ok (src : source A) (slice : option (Z * Z)) : Prop :=
-    src_len src < u64_max /\
-    match slice with Some (a, b) => 0 <= a /\ a <= b /\ b <= src_len src | None => 0 <= src_len src end.
-  Definition nframes (src : source A) (slice : option (Z * Z)) : Z :=
-    match slice with Some (a, b) => b - a | None => src_len src end.
-  Definition soff (slice : option (Z * Z)) : Z := match slice with Some (a, _) => a | None => 0 end.
+  Variable B : Z.           (* bound on everything the transport can hold, see ProofsTransport *)
 
-  Lemma num_frames_ok : forall src slice, slice_ok src slice -> num_frames src slice = Ok (nframes src slice).
+  (** ** the slice: ANY pair of [usize] values; it is clipped to the audio that exists *)
+  Definition slice_ok (src : source A) (slice : option (Z * Z)) : Prop :=
+    0 <= src_len src /\ src_len src < u64_max /\
+    match slice with Some (a, b) => 0 <= a | None => True end.
+  Definition soff (slice : option (Z * Z)) : Z := match slice with Some (a, _) => a | None => 0 end.
+  Definition send (src : source A) (slice : option (Z * Z)) : Z :=
+    match slice with Some (_, b) => Z.min b (src_len src) | None => src_len src end.
+
+  Lemma num_frames_range : forall src slice, slice_ok src slice ->
+    0 <= num_frames src slice /\ num_frames src slice < u64_max /\
+    (0 < num_frames src slice -> soff slice + num_frames src slice = send src slice).
   Proof.
-    intros src [[a b]|] [Hm H]; cbn [num_frames nframes]; [|reflexivity]. apply sub_chk_ok. lia.
+    intros src [[a b]|] (H0 & Hm & Ha); cbn [num_frames soff send]; unfold sat_sub; lia.
   Qed.
-  Lemma nframes_nonneg : forall src slice, slice_ok src slice -> 0 <= nframes src slice /\ nframes src slice < u64_max.
-  Proof. intros src [[a b]|] [Hm H]; cbn [nframes]; lia. Qed.
-  (** inside the sound, [frame_at_index i] is [frames[slice.start + i]], and that is inside the slice *)
-  Lemma frame_at_index_ok : forall src slice i, slice_ok src slice -> 0 <= i -> i < nframes src slice ->
+  (** inside the sound, [frame_at_index i] is [frames[slice.start + i]], and that is inside the
+      slice and inside the audio *)
+  Lemma frame_at_index_ok : forall src slice i, slice_ok src slice -> 0 <= i -> i < num_frames src slice ->
     frame_at_index i src slice = Ok (Some (src_get src (soff slice + i))) /\
-    soff slice <= soff slice + i /\ soff slice + i < soff slice + nframes src slice /\
-    soff slice + nframes src slice <= src_len src.
+    soff slice <= soff slice + i /\ soff slice + i < send src slice /\ send src slice <= src_len src.
   Proof.
-    intros src slice i Hok Hi0 Hi. unfold frame_at_index. rewrite (num_frames_ok _ _ Hok). cbn [obind].
-    destruct (Z.geb_spec i (nframes src slice)); [lia|].
-    destruct Hok as [Hm Hs].
-    assert (Hb : 0 <= soff slice /\ soff slice + nframes src slice <= src_len src).
-    { destruct slice as [[a b]|]; cbn [soff nframes] in *; lia. }
+    intros src slice i Hok Hi0 Hi. unfold frame_at_index.
+    destruct (Z.geb_spec i (num_frames src slice)); [lia|].
+    destruct (num_frames_range _ _ Hok) as (Hn0 & Hnm & Hs). specialize (Hs ltac:(lia)).
+    destruct Hok as (Hl0 & Hm & Ha).
+    assert (Hb : 0 <= soff slice /\ send src slice <= src_len src).
+    { destruct slice as [[a b]|]; cbn [soff send] in *; lia. }
     replace (match slice with Some (st, _) => st | None => 0 end) with (soff slice) by reflexivity.
     rewrite add_chk_ok by lia. cbn [obind]. unfold src_index.
     destruct (Z.leb_spec 0 (i + soff slice)); [|lia].
     destruct (Z.ltb_spec (i + soff slice) (src_len src)); [|lia].
     cbn [andb obind]. rewrite (Z.add_comm i). split; [reflexivity | lia].
   Qed.
-  Lemma frame_at_index_beyond : forall src slice i, slice_ok src slice -> nframes src slice <= i ->
+  Lemma frame_at_index_beyond : forall (src : source A) slice i, num_frames src slice <= i ->
     frame_at_index i src slice = Ok None.
   Proof.
-    intros src slice i Hok Hi. unfold frame_at_index. rewrite (num_frames_ok _ _ Hok). cbn [obind].
-    destruct (Z.geb_spec i (nframes src slice)); [reflexivity | lia].
+    intros src slice i Hi. unfold frame_at_index.
+    destruct (Z.geb_spec i (num_frames src slice)); [reflexivity | lia].
   Qed.
 
   (** ** the invariant of a running sound *)
-  Definition NS (s : ssound T A) : Z := nframes (s_src s) (s_slice s).
+  Definition NS (s : ssound T A) : Z := num_frames (s_src s) (s_slice s).
   Definition SInv (s : ssound T A) : Prop :=
-    slice_ok (s_src s) (s_slice s) /\ NS s < Z.of_nat fuel /\ wf_transport (NS s) (s_tr s).
+    slice_ok (s_src s) (s_slice s) /\ NS s <= B /\ B < u64_max /\ B < Z.of_nat fuel /\
+    wf_transport B (s_tr s).
 
-  (** what the next push reads: the source frame under the transport, if it is playing *)
+  (** what the next push reads: the source frame under the transport, if it is playing
+      (a playing transport outside the sound — start position or loop end beyond it — reads nothing) *)
   Definition pushed (s : ssound T A) : option A :=
-    if t_playing (s_tr s) then Some (src_get (s_src s) (soff (s_slice s) + t_pos (s_tr s))) else None.
+    if t_playing (s_tr s) then
+      Some (if t_pos (s_tr s) <? NS s then src_get (s_src s) (soff (s_slice s) + t_pos (s_tr s)) else azero)
+    else None.
 
-  (** the only source access of the sound: one read at [slice.start + position], inside the slice *)
+  (** the only source access of the sound: at most one read, at [slice.start + position], inside
+      the slice and inside the audio *)
   Lemma push_reads_inside : forall s, SInv s ->
     push_frame_to_resampler A azero s = Ok (set_rs A s (push_frame azero (s_rs s) (pushed s) (t_pos (s_tr s)))) /\
-    (t_playing (s_tr s) = true ->
-       soff (s_slice s) <= soff (s_slice s) + t_pos (s_tr s) < soff (s_slice s) + NS s /\
-       soff (s_slice s) + NS s <= src_len (s_src s)).
+    (t_playing (s_tr s) = true -> t_pos (s_tr s) < NS s ->
+       soff (s_slice s) <= soff (s_slice s) + t_pos (s_tr s) < send (s_src s) (s_slice s) /\
+       send (s_src s) (s_slice s) <= src_len (s_src s)).
   Proof.
-    intros s (Hok & _ & Hp0 & Hpl & Hlr). unfold push_frame_to_resampler, pushed.
+    intros s (Hok & _ & _ & _ & Hp0 & Hpl & Hlr). unfold push_frame_to_resampler, pushed.
     destruct (t_playing (s_tr s)) eqn:E.
-    - destruct (frame_at_index_ok _ _ (t_pos (s_tr s)) Hok Hp0 (Hpl eq_refl)) as (Hf & Hb).
-      rewrite Hf. cbn [obind]. split; [reflexivity|]. intros _. unfold NS. lia.
+    - destruct (Z.ltb_spec (t_pos (s_tr s)) (NS s)) as [Hin|Hout].
+      + destruct (frame_at_index_ok _ _ (t_pos (s_tr s)) Hok Hp0 Hin) as (Hf & Hb).
+        rewrite Hf. cbn [obind]. split; [reflexivity|]. intros _ _. lia.
+      + rewrite frame_at_index_beyond by exact Hout. cbn [obind]. split; [reflexivity|]. intros _ H; unfold NS in *; lia.
     - cbn [obind]. split; [reflexivity | discriminate].
   Qed.
 
@@ -89,33 +99,29 @@ Section Sound.
     exists t',
       (if is_playing_backwards A s then decrement_position fuel (s_tr s)
        else increment_position fuel (s_tr s) (NS s)) = Ok t' /\
-      wf_transport (NS s) t' /\ t_loop t' = t_loop (s_tr s) /\
+      wf_transport B t' /\ t_loop t' = t_loop (s_tr s) /\
       update_position A azero fuel s =
         Ok (finish (set_tr A (set_rs A s (push_frame azero (s_rs s) (pushed s) (t_pos (s_tr s)))) t')) /\
       SInv (finish (set_tr A (set_rs A s (push_frame azero (s_rs s) (pushed s) (t_pos (s_tr s)))) t')).
   Proof.
-    intros s Hinv. pose proof Hinv as (Hok & Hfuel & Hwf).
-    destruct (nframes_nonneg _ _ Hok) as [HN0 HNm].
+    intros s Hinv. pose proof Hinv as (Hok & HNB & HBm & Hfuel & Hwf).
     unfold update_position. destruct (push_reads_inside s Hinv) as [Hpush _]. rewrite Hpush. cbn [obind].
     replace (is_playing_backwards A (set_rs A s _)) with (is_playing_backwards A s) by reflexivity.
-    cbn [set_rs s_tr s_src s_slice].
+    cbn [set_rs s_tr s_src s_slice]. fold (NS s).
     assert (Hstep : exists t', (if is_playing_backwards A s then decrement_position fuel (s_tr s)
                                 else increment_position fuel (s_tr s) (NS s)) = Ok t' /\
-                               wf_transport (NS s) t' /\ t_loop t' = t_loop (s_tr s)).
+                               wf_transport B t' /\ t_loop t' = t_loop (s_tr s)).
     { destruct (is_playing_backwards A s).
       - apply decrement_safe; auto.
       - apply increment_safe; auto. }
     destruct Hstep as (t' & Ht' & Hwf' & Hl'). exists t'.
     split; [exact Ht'|]. split; [exact Hwf'|]. split; [exact Hl'|].
-    assert (Heq : (if is_playing_backwards A s then decrement_position fuel (s_tr s)
-                   else let! n := num_frames (s_src s) (s_slice s) in increment_position fuel (s_tr s) n) = Ok t').
-    { destruct (is_playing_backwards A s); [exact Ht'|]. rewrite (num_frames_ok _ _ Hok). cbn [obind]. exact Ht'. }
-    rewrite Heq. cbn [obind]. split.
+    rewrite Ht'. cbn [obind]. split.
     - unfold finish. cbn [set_tr set_rs s_tr s_rs].
       destruct (negb (t_playing t') && resampler_empty _); reflexivity.
     - unfold finish, SInv, NS. cbn [set_tr set_rs s_tr s_rs s_src s_slice].
       destruct (negb (t_playing t') && resampler_empty _); cbn [mark_stopped set_tr set_rs s_tr s_rs s_src s_slice];
-        repeat split; assumption.
+        (split; [exact Hok|]; split; [exact HNB|]; split; [exact HBm|]; split; [exact Hfuel | exact Hwf']).
   Qed.
 
   Lemma update_n_safe : forall k s, SInv s -> exists s', update_n A azero fuel k s = Ok s' /\ SInv s'.
@@ -156,9 +162,7 @@ Section Sound.
       unfold frame_step. rewrite Hf, U1.
       destruct fuel as [|[|f]]; [lia | lia |].
       cbn [carry set_fpos s_fpos]. rewrite U2, U3.
-      assert (Hset : {| s_sr := s_sr s; s_src := s_src s; s_slice := s_slice s; s_reverse := s_reverse s;
-                        s_stopped := s_stopped s; s_rs := s_rs s; s_tr := s_tr s; s_fpos := n0;
-                        s_rate := s_rate s; sh_state := sh_state s; sh_pos := sh_pos s |} = s).
+      assert (Hset : set_fpos A (set_fpos A s n1) n0 = s).
       { destruct s; cbn in *; subst; reflexivity. }
       rewrite Hset, Hu. cbn [obind]. rewrite Hk, Hf, U4. reflexivity.
     Qed.
@@ -182,7 +186,7 @@ Section Sound.
     intros s Hs (Hpl & Hl & Hb & H1 & H2 & H3) Hn.
     destruct (update_position_spec s Hs) as (t' & Ht' & _ & _ & Hu & Hi).
     rewrite Hb in Ht'. unfold increment_position in Ht'. rewrite Hpl, Hl in Ht'. cbn [negb] in Ht'.
-    destruct Hs as (Hok & _ & Hp0 & _). destruct (nframes_nonneg _ _ Hok) as [_ HNm]. fold (NS s) in HNm.
+    destruct Hs as (Hok & HNB & HBm & _ & Hp0 & _).
     rewrite add_chk_ok in Ht' by lia. cbn [obind] in Ht'.
     destruct (Z.geb_spec (t_pos (s_tr s) + 1) (NS s)); [lia|]. inversion Ht'; subst t'; clear Ht'.
     eexists. split; [exact Hu|]. split; [exact Hi|].
